@@ -388,6 +388,15 @@ func TestReplay(t *testing.T) {
 	}
 	c := ev.New("C19", "replay", "exploration")
 	t.Cleanup(c.Flush)
+	if doc.Check == "expiry-path" {
+		var ec expiryCase
+		if err := json.Unmarshal(doc.Data, &ec); err != nil {
+			t.Fatal(err)
+		}
+		c.Case()
+		runExpiryCase(t, c, ec)
+		return
+	}
 	var p program
 	if err := json.Unmarshal(doc.Data, &p); err != nil {
 		t.Fatal(err)
